@@ -1,7 +1,7 @@
 (* simulation helpers and Examples (vm_compute only) *)
 From stdpp Require Import list numbers option.
 From RecordUpdate Require Import RecordUpdate.
-From L2 Require Import Model Inst.
+From L2 Require Import Model GenTables.
 
 Definition G := gen_ftables.
 Definition nact (s : state) := length s.(actors).
